@@ -133,6 +133,26 @@ def apply_history(H, W, hist, ctor_kwargs=None):
                 got = cells(a[r])
                 if got + [BL] * (W - len(got)) != model[r]:
                     return f"step {step}: a[{r}] reads back {got}"
+                # the other spellings of the same row: counted from the end, as a one-row slice, through the sequence protocol
+                neg = r - len(model)
+                got = cells(a[neg])
+                if got + [BL] * (W - len(got)) != model[r]:
+                    return f"step {step}: a[{neg}] reads back {got}, row {r} shows {model[r]}"
+                one = [cells(x) for x in a[neg:(neg + 1) or None]]
+                if [x + [BL] * (W - len(x)) for x in one] != [model[r]]:
+                    return f"step {step}: a[{neg}:{(neg + 1) or None}] reads back {one}"
+            for bad in (len(model), -len(model) - 1):
+                try:
+                    a[bad]
+                    return f"step {step}: a[{bad}] of an array with {len(model)} rows did not raise IndexError"
+                except IndexError:
+                    pass
+            if len(model) and W and [cells(x) for x in reversed(a)] != [cells(a[k]) for k in range(len(model) - 1, -1, -1)]:
+                return f"step {step}: reversed(a) does not give the rows last to first"
+            if len(model) and W >= 2:
+                rb2 = [cells(x) for x in a[-1:, -2:]]
+                if [x + [BL] * (2 - len(x)) for x in rb2] != [model[-1][W - 2:]]:
+                    return f"step {step}: a[-1:, -2:] reads back {rb2}"
         except Exception as e:
             return f"step {step}: reading back raised {type(e).__name__}: {e}"
     return _array_unaffected_by_blocks(a, held)
